@@ -28,9 +28,10 @@ CFGS = {
     ("C03", "quick"): ["MC_Resolver_score_q.cfg"],
     ("C03", "thorough"): ["MC_Resolver_score_t.cfg", "MC_Resolver_score3_t.cfg"],
 }
-MUTANTS = {"C01": ("MUT_Resolver_unstable_sort.cfg", "ShownIsBest"),
-           "C02": ("MUT_Resolver_correct_or.cfg", "CorrectIff"),
-           "C03": ("MUT_Resolver_muted_unscored.cfg", "ScoreIs")}
+MUTANTS = {"C01": [("MUT_Resolver_unstable_sort.cfg", "ShownIsBest")],
+           "C02": [("MUT_Resolver_correct_or.cfg", "CorrectIff"),
+                   ("MUT_Resolver_blank_message_skipped.cfg", "CorrectIff")],
+           "C03": [("MUT_Resolver_muted_unscored.cfg", "ScoreIs")]}
 
 
 def case_key(prop, m):
@@ -132,11 +133,11 @@ def run(prop, tier, seed, ctx):
         raise MachineryError("binding self-test failed: %d corrupted traces were accepted" % acc2)
     ctx.notes.append("self-test: %d corrupted traces all rejected" % len(corrupted))
     # (b) a wrong algorithm must violate the contract in TLC
-    mcfg, inv = MUTANTS[prop]
-    mres = tlc.run("MC_Resolver", mcfg, workers=8, timeout=600)
-    if inv not in mres.violated:
-        raise MachineryError("mutant %s did not violate %s: %s" % (mcfg, inv, mres.stdout[-1500:]))
-    ctx.notes.append("self-test: mutant %s violates %s" % (mcfg, inv))
+    for mcfg, inv in MUTANTS[prop]:
+        mres = tlc.run("MC_Resolver", mcfg, workers=8, timeout=600)
+        if inv not in mres.violated:
+            raise MachineryError("mutant %s did not violate %s: %s" % (mcfg, inv, mres.stdout[-1500:]))
+        ctx.notes.append("self-test: mutant %s violates %s" % (mcfg, inv))
 
 
 def replay(prop, rep):
